@@ -38,8 +38,8 @@ type entry struct {
 	pch       chan rueidis.RedisResult
 	putErr    error
 
-	deqs int   // how many times the writer was handed this entry (writer only)
-	pos  int   // position in the writer's dequeue order (writer only)
+	deqs int // how many times the writer was handed this entry (writer only)
+	pos  int // position in the writer's dequeue order (writer only)
 	wch  chan rueidis.RedisResult
 	rch  chan rueidis.RedisResult // channel the reader was given for it
 }
@@ -352,7 +352,7 @@ func runCase(run *mon.Run, cfg config, progress *atomic.Int64) stats {
 		if !fatalFlag.Load() {
 			stacks := bubbleStacks()
 			violation("hang", fmt.Sprintf("putters=%d", cfg.putters), map[string]any{
-				"what": "writer and reader were running and callers waiting, yet every goroutine ended durably blocked (lost wake-up); stuck while " + what,
+				"what":           "writer and reader were running and callers waiting, yet every goroutine ended durably blocked (lost wake-up); stuck while " + what,
 				"rueidis_frames": drv.RueidisFrames(stacks), "stacks": drv.Tail(stacks, 12000)})
 		}
 		fatal()
